@@ -69,6 +69,7 @@ META = {
 }
 
 TOL_SYM = 1e-10
+STATS = {'asym': 0.0, 'asym_case': None, 'model': 0.0}
 TOL_MODEL = 1e-9
 WARN_TEXT = 'non-symmetric multigrid preconditioner'
 
@@ -582,6 +583,8 @@ def judge_real(ctx, ml, pre, post, case, cycles='VW', M_cache=None, pd=True):
             continue
         a = asym(M)
         ctx.rel_err(min(a, 1.0) if a <= TOL_SYM else 0.0)
+        if STATS['asym'] < a <= TOL_SYM:
+            STATS['asym'], STATS['asym_case'] = a, (case.get('ctor', case.get('kind')), case.get('pre'), case.get('post'), cyc, M.shape[0])
         if a > TOL_SYM:
             ctx.violation(f'symmetric_smoothing=True (A Hermitian, R = P^H) but the {cyc}-cycle preconditioner is not Hermitian: '
                           f'||M - M^H||_F/||M||_F = {a:.3e} (pre={case.get("pre")}, post={case.get("post")})',
@@ -875,6 +878,7 @@ def part_cycles(ctx, n_hand, n_ctor):
             err = float(np.linalg.norm(Mm - M) / max(np.linalg.norm(Mm), 1e-300)) if Mm.shape == M.shape else float('inf')
             if err <= TOL_MODEL:
                 ctx.rel_err(err)
+                STATS['model'] = max(STATS['model'], err)
             else:
                 ctx.corr(f'aspreconditioner({cyc!r}) dense matrix', cj, f'rel.diff {err:.3e}; model row0 {Mm[0][:4]}', f'impl row0 {M[0][:4]}')
             if exact and mop != 'true':     # (the textbook operator uses the Galerkin product R A P, exact on hand-built hierarchies only)
@@ -1169,6 +1173,8 @@ def run(ctx):
     part_ctor_flags(ctx)
     part_cycles(ctx, ctx.scale(36, 800), ctx.scale(20, 400))
     part_search(ctx, ctx.scale(18, 300), ctx.scale(14, 40), nmax=ctx.scale(18, 26))
+    ctx.feat(f'largest accepted ||M - M^H||/||M|| of a flagged-True cycle: {STATS["asym"]:.1e} (tolerance {TOL_SYM:.0e})')
+    ctx.feat(f'largest accepted |model M - real M|/|M|: {STATS["model"]:.1e} (tolerance {TOL_MODEL:.0e})')
 
 
 def search(ctx):
